@@ -15,7 +15,11 @@ type bodyStreamHeader interface {
 }
 
 type requestStream struct {
-	header          bodyStreamHeader
+	header bodyStreamHeader
+	// contentLength is the framing of the body as it was announced: the header
+	// belongs to the handler, which may reset or rewrite it while the stream
+	// is in use.
+	contentLength   int
 	prefetchedBytes *bytes.Reader
 	reader          *bufio.Reader
 	totalBytesRead  int
@@ -31,7 +35,7 @@ type requestStream struct {
 // the connection yet. Whatever is left there would be parsed as the next
 // request, so the connection must not be reused in that case.
 func (rs *requestStream) unread() bool {
-	contentLength := rs.header.ContentLength()
+	contentLength := rs.contentLength
 	if contentLength == -1 {
 		return !rs.chunkedDone
 	}
@@ -48,7 +52,7 @@ func (rs *requestStream) Read(p []byte) (int, error) {
 		n   int
 		err error
 	)
-	if rs.header.ContentLength() == -1 {
+	if rs.contentLength == -1 {
 		if rs.chunkedDone {
 			// The body has been read to its end: whatever follows in the
 			// connection belongs to the next request.
@@ -88,7 +92,7 @@ func (rs *requestStream) Read(p []byte) (int, error) {
 		}
 		return n, err
 	}
-	if rs.totalBytesRead == rs.header.ContentLength() {
+	if rs.totalBytesRead == rs.contentLength {
 		return 0, io.EOF
 	}
 	prefetchedSize := int(rs.prefetchedBytes.Size())
@@ -99,12 +103,12 @@ func (rs *requestStream) Read(p []byte) (int, error) {
 		}
 		n, err := rs.prefetchedBytes.Read(p)
 		rs.totalBytesRead += n
-		if n == rs.header.ContentLength() {
+		if n == rs.contentLength {
 			return n, io.EOF
 		}
 		return n, err
 	}
-	left := rs.header.ContentLength() - rs.totalBytesRead
+	left := rs.contentLength - rs.totalBytesRead
 	if left > 0 && len(p) > left {
 		p = p[:left]
 	}
@@ -114,7 +118,7 @@ func (rs *requestStream) Read(p []byte) (int, error) {
 		return n, err
 	}
 
-	if rs.totalBytesRead == rs.header.ContentLength() {
+	if rs.totalBytesRead == rs.contentLength {
 		err = io.EOF
 	}
 	return n, err
@@ -125,6 +129,7 @@ func acquireRequestStream(b *bytebufferpool.ByteBuffer, r *bufio.Reader, h bodyS
 	rs.prefetchedBytes = bytes.NewReader(b.B)
 	rs.reader = r
 	rs.header = h
+	rs.contentLength = h.ContentLength()
 	return rs
 }
 
@@ -136,6 +141,7 @@ func releaseRequestStream(rs *requestStream) {
 	rs.chunkedErr = nil
 	rs.reader = nil
 	rs.header = nil
+	rs.contentLength = 0
 	requestStreamPool.Put(rs)
 }
 
